@@ -20,7 +20,10 @@ The rules are phrased on *roles*, not on the spelling of the analysed code:
   tests: export stamp None / 0 / non-zero, the key of the deciding version-table lookup present / absent, optional regex
   group took part or not, DOS stub found or not), every other test forks; so nested ifs / guard clauses / conditional expressions / temporaries / walrus / comprehensions over
   literal sequences / loops over literal tuples all yield the same terms;
-* the version regex is judged on its parsed syntax tree (`re._parser.parse`), never by matching strings.
+* the version regex is judged on its parsed syntax tree (`re._parser.parse`), never by matching strings;
+* the bytes a finder reports (PE magic, prepend, append) are located as "the stream read that flows into the returned
+  value" and judged on the chain of operations between the read and the return (`_ByteFlow`), whatever temporaries,
+  helpers (inlined), conditional expressions or `or`/`and` forms carry the value.
 
 An obligation is *undecided* only when the construct it talks about cannot be located (no DOS header parse, no candidate
 loop over a range, a header parsed by a call whose struct type cannot be identified, a version that is not built from the
@@ -106,6 +109,19 @@ R6  1, 3 (the reads that flow into the returned pair; positions and lengths as p
     dominated by a fact that excludes image base 0: nonzero/interval reasoning on the dominating facts, lemma L6),
     6 (DOS stub constants), find_magic_mz: 3 + 5 (path-wise value flow; cases: each of the two stubs found / not found -
     the outcomes of the code's own searches; lemmas L7, L8).
+R7  3 (the value a finder reports - the returned value of find_magic_pe, each element of the pair displays returned by
+    find_stage_prepend_append - is followed backwards through reaching definitions, conditional expressions, `a or b` /
+    `a and b`, walrus, `bytes(..)`, to the stream reads of the cursor walk; the operations applied on the way form the
+    chain "read -> reported value"; a loop-carried definition is followed once, nothing is unrolled) + 5 (each
+    operation of the chain is classified by lemma L12 over the finite vocabulary it covers: strip / lstrip / rstrip with
+    a constant argument or none, slices with constant bounds, the letter-case methods; any other operation, a
+    non-constant argument, a value that is not traced to a read -> undecided) + 6 (the argument of the strip is constant
+    folded, module-level constants included).  Necessary condition: nothing removes or changes bytes of the value except
+    the removal of *trailing NUL* bytes, and that only where padding can follow the value in the stream (the PE magic in
+    its 4-byte signature field, the stage append before the end of the stage; not the prepend, which the image follows).
+    Located and wrong: a chain of known operations that contains a strip/lstrip (bytes at the start removed), an rstrip
+    whose byte set contains a non-NUL byte or is the default ASCII whitespace, a `[k:]` with constant k > 0, a case
+    conversion, or any trimming of the prepend.
 
 Lemmas (each also listed in rep.trusted_base)
 L1  for integers, `a < b` is `b - a - 1 >= 0`, `a <= b` is `b - a >= 0`, and the negation of `<`/`<=` is `>=`/`>`.
@@ -130,6 +146,13 @@ L11 the number of section headers n (FILE.NumberOfSections, an unsigned field; t
     header per iteration) is >= 0: the truth value of the table, `len(T) > 0`, `n > 0`, `n >= 1`, `n != 0` each say
     "non-empty", their negations / `n == 0` / `n <= 0` / `n < 1` say "empty"; a sum over an empty table is 0; `T[k]`
     with a constant k (or `T[len(T) - 1]`, which is `T[-1]`) is one fixed entry and raises for an empty table.
+L12 for a bytes value b and a bytes constant c: b.rstrip(c) is b without its longest suffix of bytes from c, b.lstrip(c)
+    without its longest such prefix, b.strip(c) without both; without an argument (or None) c is the ASCII whitespace
+    b" \t\n\r\x0b\x0c"; with c == b"" nothing is removed.  Hence rstrip(c) with c made of NUL bytes only removes exactly
+    the trailing NUL bytes and keeps every other byte in place; strip/lstrip with a non-empty c change a value that
+    starts with a byte of c; rstrip with a non-NUL byte in c changes a value that ends with it.  b[0:] / b[:] / bytes(b)
+    equal b; b[k:] for a constant k > 0 lacks the first k bytes; `a or b` and `a and b` evaluate to one of a, b;
+    lower/upper/swapcase/title/capitalize change ASCII letters among the bytes.
 """
 
 from __future__ import annotations
@@ -197,7 +220,12 @@ def run(ctx):
         "version property is also checked for reuse of a stored result (attribute assigned by the property, memoising "
         "decorator): a stored version may not be handed out again when an attribute it was computed from is assigned "
         "after construction anywhere in the package (who-may-write). Tables keyed by the Machine field (dict displays, module-level constant dicts, "
-        "read-only proxies) and struct types selected through them are resolved per Machine case. No analysed code is "
+        "read-only proxies) and struct types selected through them are resolved per Machine case. The bytes a finder "
+        "reports (PE magic, stage prepend, stage append) are followed backwards from the returned value to the stream read: "
+        "the operations on the way may only remove trailing NUL bytes, and only where padding follows the value in the stream "
+        "(the magic inside its 4-byte signature field, the append before the end of the stage) - stripping at the start of "
+        "the value, trimming other bytes than NUL, dropping a prefix or trimming the prepend reports bytes that are not "
+        "those of the image. No analysed code is "
         "run on concrete data and no string is matched against the analysed regex."
     )
     rep.not_decided = [
@@ -214,6 +242,7 @@ def run(ctx):
         "an image end that is computed in several ways (several definitions of the position local, conditional expressions) where one way is taken under conditions on the section table other than empty / non-empty, can be overridden by another table-dependent definition, or reads the table through something else than a sum or constant-index entries (max(..), helper calls): undecided",
         "a stored version that is reset elsewhere in the package, reused only under conditions on other attributes, or computed from attributes no package code assigns after construction: undecided",
         "stores other than instance attributes / the decorators cached_property, lru_cache, cache (dict caches, __dict__, getattr defaults): the returned value is then not recognised and the version obligations are undecided",
+        "reported bytes (PE magic, prepend, append) that pass through operations other than strip/lstrip/rstrip with a constant argument, constant slices `[k:]`, bytes(..), `or`/`and`, conditional expressions and plain assignments (trimming loops, computed slice bounds, regex substitution, helpers that are not inlined, decoding): undecided; whether the trailing NUL padding is removed at all is not demanded",
     ]
     rep.trusted_base = [
         "CPython ast", "C-definition parser", "PE/COFF reference layout in csverif/tables.py", "SymPoly normal form",
@@ -235,6 +264,8 @@ def run(ctx):
         "a cstruct parse on the stream raises EOFError when the data ends inside the structure; seek and read do not",
         "the state of a freshly constructed BeaconConfig: an attribute has the single constant its constructor assigns (used as the first-access case of the version property)",
         "an instance attribute that some function of the package assigns outside the constructor can change between two accesses of the version property",
+        "L12: bytes.rstrip(c) / lstrip(c) / strip(c) remove the longest suffix / prefix / both of bytes from c (default: ASCII whitespace; nothing for b''); rstrip over NUL bytes only removes exactly the trailing NULs; b[:] == b[0:] == bytes(b) == b; b[k:] lacks the first k bytes for k > 0; `a or b` / `a and b` is one of the operands; the case methods change ASCII letters",
+        "NUL padding follows the PE magic inside the 4-byte signature field and the stage append at the end of the stage; nothing pads the stage prepend (the image follows it)",
         "contract of the two lookups used by the precedence rule: from_pe_export_stamp(k) / from_max_setting_enum(k) is T.get(k, 'Unknown') (obligations `<table>.get(<argument>, 'Unknown')`)",
     ]
     rep.exhaustive = True
@@ -244,6 +275,7 @@ def run(ctx):
     r4(ctx)
     r5(ctx)
     r6(ctx)
+    r7(ctx)
 
 
 def r1(ctx):
@@ -3426,3 +3458,173 @@ def _r6_magic_mz(ctx):
         ctx.undecided("R6", "AGREE", g, text, "no path of the function is identified")
         return
     ctx.ob("R6", "AGREE", g, text, not bad, "returns the bytes before the x86 DOS stub when it occurs, else those before the x64 stub, else None" if not bad else "; ".join(bad[:4]))
+
+
+# ============================================================================ R7: the reported bytes are the bytes read
+# What find_magic_pe / find_stage_prepend_append hand out is a stream read (R2/R6 judge where and how much is read) after
+# the operations applied to it on the way to the return.  The chain of operations is collected by following definitions
+# backwards from the returned value (device 3); each operation is classified by lemma L12 (device 5: the finite vocabulary
+# of bytes operations the lemma covers; everything else is unknown -> undecided).
+_ASCII_WS = b" \t\n\r\x0b\x0c"  # what bytes.strip()/lstrip()/rstrip() remove when called without an argument
+_CASE_METHODS = frozenset({"lower", "upper", "swapcase", "title", "capitalize"})
+
+
+class _ByteFlow:
+    """Backward value flow from an expression to the stream reads it may hold: `paths` is a list of
+    (terminal, node, ops) with terminal 'read' (a read site of the cursor walk), 'none' (None / empty constant) or
+    'unknown' (anything the walk does not follow), and ops the operations applied on the way, each (kind, text) with
+    kind 'same' (value unchanged), 'trim' (only trailing NUL bytes removed), 'bad' (bytes of the value removed or
+    changed otherwise) or 'unknown'."""
+
+    def __init__(self, ctx, f, view):
+        self.ctx, self.f = ctx, f
+        self.reads = {id(s.node) for s in view.sites if s.kind == "read"}
+        self.env = module_env(f.module)
+        self.paths = []
+        self.budget = 96
+
+    def _strip_op(self, call):
+        m = call.func.attr
+        if call.keywords or len(call.args) > 1 or any(isinstance(a, ast.Starred) for a in call.args):
+            return ("unknown", _u(call)[:60])
+        if not call.args or is_none(call.args[0]):
+            chars = _ASCII_WS
+        else:
+            chars = _c(call.args[0], self.env)
+            if not isinstance(chars, (bytes, bytearray)):
+                return ("unknown", f".{m}(<not a constant>)")
+            chars = bytes(chars)
+        if not chars:
+            return ("same", f".{m}(b'')")
+        shown = f".{m}({chars!r})" if call.args else f".{m}()"
+        if m == "rstrip":
+            if set(chars) == {0}:
+                return ("trim", shown)
+            return ("bad", f"{shown} removes trailing bytes other than NUL padding")
+        return ("bad", f"{shown} removes bytes at the start of the value")
+
+    def _slice_op(self, sl):
+        lo, hi, step = (None if x is None or is_none(x) else x for x in (sl.lower, sl.upper, sl.step))
+        lo_c = _c(lo, self.env) if lo is not None else 0
+        if hi is None and (step is None or _c(step, self.env) == 1):
+            if type(lo_c) is int and lo_c == 0:
+                return ("same", "[:]")
+            if type(lo_c) is int and lo_c > 0:
+                return ("bad", f"[{lo_c}:] drops bytes at the start of the value")
+        return ("unknown", f"[{_u(sl)}]")
+
+    def trace(self, e, at, ops=(), seen=frozenset()):
+        self.budget -= 1
+        if self.budget < 0:
+            self.paths.append(("unknown", e, ops + (("unknown", "too many alternatives"),)))
+            return
+        e = strip_cast(e)
+        if isinstance(e, ast.Constant):
+            kind = "none" if e.value is None or e.value == b"" else "unknown"
+            self.paths.append((kind, e, ops))
+        elif isinstance(e, ast.NamedExpr):
+            self.trace(e.value, at, ops, seen)
+        elif isinstance(e, ast.Name):
+            defs = reaching_defs(self.ctx, self.f, e.id, at)
+            if not defs:
+                self.paths.append(("unknown", e, ops))
+            for st, v in defs:
+                if v is None or st is self.f.node:
+                    self.paths.append(("unknown", e, ops))  # parameter, loop target, unpacking, augmented assignment
+                elif id(st) not in seen:  # a loop-carried definition is followed once
+                    self.trace(v, st, ops, seen | {id(st)})
+        elif isinstance(e, ast.IfExp):
+            self.trace(e.body, at, ops, seen)
+            self.trace(e.orelse, at, ops, seen)
+        elif isinstance(e, ast.BoolOp):  # the value of `a or b` / `a and b` is one of the operands
+            for v in e.values:
+                self.trace(v, at, ops, seen)
+        elif isinstance(e, ast.Subscript) and isinstance(e.slice, ast.Slice):
+            self.trace(e.value, at, ops + (self._slice_op(e.slice),), seen)
+        elif isinstance(e, ast.Call) and id(e) in self.reads:
+            self.paths.append(("read", e, ops))
+        elif isinstance(e, ast.Call) and isinstance(e.func, ast.Name) and e.func.id == "bytes" and len(e.args) == 1 and not e.keywords \
+                and not isinstance(e.args[0], ast.Starred):
+            self.trace(e.args[0], at, ops + (("same", "bytes(..)"),), seen)
+        elif isinstance(e, ast.Call) and isinstance(e.func, ast.Attribute) and e.func.attr in ("strip", "lstrip", "rstrip"):
+            self.trace(e.func.value, at, ops + (self._strip_op(e),), seen)
+        elif isinstance(e, ast.Call) and isinstance(e.func, ast.Attribute) and e.func.attr in _CASE_METHODS and not e.args and not e.keywords:
+            self.trace(e.func.value, at, ops + (("bad", f".{e.func.attr}() changes the letters among the bytes"),), seen)
+        else:
+            self.paths.append(("unknown", e, ops))
+
+
+def _bytes_ob(ctx, f, text, values, padded, what):
+    """`values`: [(expression, statement it is evaluated in)] - the alternatives of one reported value.  `padded`: NUL
+    padding may follow the value in the stream (its removal at the end is then not a change of the value)."""
+    flow = _ByteFlow(ctx, f, _view(ctx, f))
+    for e, at in values:
+        flow.trace(e, at)
+    reads = [p for p in flow.paths if p[0] == "read"]
+    node = reads[0][1] if reads else None
+
+    def wrong(op):
+        return op[0] == "bad" or (op[0] == "trim" and not padded)
+
+    def chain(ops):
+        return "read" + "".join(t if k != "bad" else t.split(" ")[0] for k, t in reversed(ops) if not (k == "same" and t == "bytes(..)"))
+
+    known = [p for p in reads if all(op[0] != "unknown" for op in p[2])]
+    bad = [p for p in known if any(wrong(op) for op in p[2])]
+    unknown = [p for p in flow.paths if p[0] == "unknown" or any(op[0] == "unknown" for op in p[2])]
+    if bad:
+        why = []
+        for p in bad[:2]:
+            op = next(op for op in p[2] if wrong(op))
+            why.append(f"{chain(p[2])}: " + (op[1] if op[0] == "bad" else f"{op[1]} removes trailing NUL bytes, but nothing pads the {what}: they are bytes of the image"))
+        ctx.ob("R7", "AGREE", f, text, False, f"the {what} is not reported as read - " + "; ".join(why), bad[0][1])
+    elif not reads:
+        ctx.undecided("R7", "AGREE", f, text, f"no stream read is found to flow into the {what}" + (f" (not followed: {_u(unknown[0][1])[:60]})" if unknown else ""))
+    elif unknown:
+        p = unknown[0]
+        op = next((op[1] for op in p[2] if op[0] == "unknown"), None)
+        ctx.undecided("R7", "AGREE", f, text, f"the {what} passes through an operation the rule has no lemma for: {op or _u(p[1])[:60]}", node)
+    else:
+        forms = sorted({chain(p[2]) for p in reads})
+        ctx.ob("R7", "AGREE", f, text, True, f"the {what} is the stream read" + (", trailing NUL padding apart" if padded else "") + f": {'; '.join(forms[:3])}", node)
+    return bool(reads)
+
+
+def r7(ctx):
+    n = 0
+    # ---- find_magic_pe: the returned value
+    f = ctx.repo.func("pe.find_magic_pe")
+    rets = [(r.value, r) for r in ctx.cfg(f).return_stmts() if r.value is not None and not is_none(r.value)]
+    t_magic = "PE magic = the bytes read, trailing padding apart"
+    if not rets:
+        ctx.undecided("R7", "AGREE", f, t_magic, "the function returns no value")
+    else:
+        n += _bytes_ob(ctx, f, t_magic, rets, True, "PE magic")
+    # ---- find_stage_prepend_append: the two elements of the returned pair
+    f = ctx.repo.func("pe.find_stage_prepend_append")
+    pairs, other = [], []
+    for r in ctx.cfg(f).return_stmts():
+        v = strip_cast(r.value) if r.value is not None else None
+        if v is None or is_none(v):
+            continue
+        cands = [(v, r)]
+        if isinstance(v, ast.Name):
+            cands = [(strip_cast(dv) if dv is not None else None, st) for st, dv in reaching_defs(ctx, f, v.id, r)]
+        for c, at in cands:
+            if isinstance(c, ast.Tuple) and len(c.elts) == 2 and not any(isinstance(x, ast.Starred) for x in c.elts):
+                pairs.append((c, at))
+            else:
+                other.append(c if c is not None else v)
+    t_pre, t_app = "prepend = the bytes read", "append = the bytes read, trailing padding apart"
+    if other or not pairs:
+        why = f"the returned value {_u(other[0])[:60]} is not a pair display" if other else "no returned pair is found"
+        ctx.undecided("R7", "AGREE", f, t_pre, why)
+        ctx.undecided("R7", "AGREE", f, t_app, why)
+    else:
+        for i, text, padded, what in ((0, t_pre, False, "stage prepend"), (1, t_app, True, "stage append")):
+            vals = [(p.elts[i], at) for p, at in pairs if not is_none(p.elts[i])]
+            if not vals:
+                ctx.undecided("R7", "AGREE", f, text, f"every returned pair has None as its {what}")
+            else:
+                n += _bytes_ob(ctx, f, text, vals, padded, what)
+    ctx.rep.count("reported_byte_flows", n)
